@@ -1,2 +1,31 @@
-/* reference key table of C08 */
+/* reference key table of C08 (harness/C08/strvp_ref.c) with an insert whose FAILURE behaviour is that of the real
+ * ares_htable_strvp_insert(): all or nothing.  The shared reference checks only its first allocation (it is used
+ * without failure injection in C08); here both of its allocations are requested up front and the reference insert then
+ * runs with injection suspended and the allocation counter restored (two allocations in total, as the reference makes). */
+#define ares_htable_strvp_insert c08ref_strvp_insert
 #include "../C08/strvp_ref.c"
+#undef ares_htable_strvp_insert
+
+ares_bool_t ares_htable_strvp_insert(ares_htable_strvp_t *h, const char *key, void *val)
+{
+  void         *a, *b;
+  unsigned long fa, calls;
+  ares_bool_t   r;
+  a = vp_malloc(8);
+  if (a == NULL)
+    return ARES_FALSE;
+  b = vp_malloc(8);
+  if (b == NULL) {
+    vp_free(a);
+    return ARES_FALSE;
+  }
+  vp_free(a);
+  vp_free(b);
+  fa               = vp_alloc_fail_at;
+  calls            = vp_alloc_calls;
+  vp_alloc_fail_at = 0;
+  r                = c08ref_strvp_insert(h, key, val);
+  vp_alloc_calls   = calls;
+  vp_alloc_fail_at = fa;
+  return r;
+}
